@@ -19,6 +19,8 @@ VisitVerdict(e) ==
             LET s == e.orders[o].stops[k] IN
               \/ s.calls # Stopped(exp(o), s.k)
               \/ s.ret # (IF s.k \in 1..Len(exp(o)) THEN "stop" ELSE "none")}}
+ \cup {"from_inner_node_" \o o : o \in {o \in Orders : \E k \in 1..Len(e.sub) : LET s == e.sub[k] IN
+            s.o = o /\ (s.calls # Order(h, s.start, o) \/ s.ret # "none" \/ (e.cls = "expr" /\ s.tolist # NodesOf(Order(h, s.start, o))))}}
  \cup (IF \A i \in S : e.q.root[i] = RootOf(h, i) THEN {} ELSE {"get_root"})
  \cup (IF \A i \in S \ {root} : e.q.rootside[i] = RootSide(h, i) THEN {} ELSE {"get_root_side"})
  \cup (IF \A i \in S \ {root} : e.q.side[i] = SideIn(h, h.p[i], i) THEN {} ELSE {"get_side"})
